@@ -272,6 +272,66 @@ func c10ClientEncoding(run *ev.Run) {
 			}
 		}
 	}
+	// a client interceptor that installs its own context (a per-call budget
+	// shorter than the caller's, or a deadline where the caller has none): the
+	// announced timeout describes the context the call actually runs under
+	for _, protocol := range svc.Protocols {
+		for _, kind := range []svc.Kind{svc.Unary, svc.ServerStream, svc.ClientStream, svc.Bidi} {
+			for _, callerHas := range []bool{true, false} {
+				key := fmt.Sprintf("c10/client-icept-deadline/%s/%s/caller-deadline=%v", protocol, kind, callerHas)
+				if !run.Want(key) {
+					continue
+				}
+				const budget = 7 * time.Second
+				ictx, icancel := context.WithTimeout(context.Background(), budget)
+				var hdr http.Header
+				cn := &wire.Canned{Background: true, Respond: func(req *http.Request, _ []byte) (*http.Response, error) {
+					hdr = req.Header.Clone()
+					return nil, fmt.Errorf("verif: stop here")
+				}}
+				cs := svc.NewClientSet(cn, "http://verif.local", append(svc.ProtoOpts(protocol, "proto"), connect.WithInterceptors(ctxSwapIcept{ctx: ictx}))...)
+				ctx, cancel := context.Background(), func() {}
+				if callerHas {
+					ctx, cancel = context.WithTimeout(ctx, time.Hour)
+				}
+				_ = cs.Do(ctx, kind, "x", nil, []*gen.Msg{{Id: 1}})
+				cancel()
+				icancel()
+				run.Eval(fmt.Sprintf("client-icept-deadline|%s|%s|%v", protocol, kind, callerHas))
+				run.Count("client.headers.checked", 1)
+				if hdr == nil {
+					run.Inconclusive("interceptor deadline: no request reached the transport")
+					continue
+				}
+				name := timeoutHeader(protocol)
+				vals := hdr.Values(name)
+				detail := map[string]any{"protocol": protocol, "kind": kind.String(), "caller_has_deadline": callerHas, "interceptor_budget_ns": int64(budget), "header": vals}
+				if len(vals) != 1 {
+					run.Violation(key+"/header-count", fmt.Sprintf("%d timeout headers on a call whose (interceptor-installed) context has a deadline", len(vals)), detail)
+					continue
+				}
+				var T time.Duration
+				if protocol == "connect" {
+					ms, ok := refcodec.ParseConnectTimeout(vals[0])
+					if !ok {
+						run.Violation(key+"/grammar", "timeout outside the grammar: "+vals[0], detail)
+						continue
+					}
+					T = time.Duration(ms) * time.Millisecond
+				} else {
+					v, unit, ok := refcodec.ParseGRPCTimeout(vals[0])
+					if !ok {
+						run.Violation(key+"/grammar", "timeout outside the grammar: "+vals[0], detail)
+						continue
+					}
+					T = time.Duration(v * unit)
+				}
+				if T > budget {
+					run.Violation(key+"/extended", fmt.Sprintf("the call runs under a context with %v left, the request announces %v", budget, T), detail)
+				}
+			}
+		}
+	}
 	// sliding deadlines: a context whose deadline is always a fixed (tiny)
 	// distance ahead, so that the remaining time at encoding is known exactly
 	// without racing the clock
